@@ -7,7 +7,7 @@ from pathsum import ERR, NONE, OK, SOME, show_term
 
 RERUN_ON_CONFIGS = ("dfm", "std")
 LEVEL = "proof"
-RULE_TEXT = ("The implementation is matched clause by clause against the abstract bounded FIFO with replace-newest "
+RULE_TEXT = ("C09-C04F: the reply <number>,\"<description>\" is written by the format table of C04 (integers by `{}` of the value itself, comma between tuple elements). The implementation is matched clause by clause against the abstract bounded FIFO with replace-newest "
              "overflow (obligations over path summaries and callee sets, valid for every history and capacity N): "
              "C09-Q push_error = push_back(error), and only on its failure edge a store of Error::QueueOverflow "
              "through back_mut; pop_error = pop_front; error_count = len; no other Deque mutator anywhere in the "
@@ -223,6 +223,9 @@ def run(ck):
         c04.rule_X(ck, lib)
         # <number>,"<description>": the description is written by the string quoting rule, whatever it contains
         c04.rule_Q(ck, lib)
+        # ... and the number by the format table: every i16 (a handler-raised custom error may carry any, the lowest
+        # included) is written by `{}` of the value itself, the comma between the two elements of the tuple (rule C04-F)
+        c04.rule_F(ck, lib)
 
 
 def queue_api_the_library_never_calls(lib):
